@@ -265,6 +265,14 @@ class GarbageCollector:
 
     def _normalize_path(self, path: str) -> str:
         """Normalize path to be relative to table root and strip leading slashes."""
-        if path.startswith(self.table_path):
-            path = path[len(self.table_path):]
+        # Strip the table location only when it is an ABSOLUTE location and
+        # matches at a path boundary. A plain string-prefix test also "matched"
+        # relative locations that merely share leading characters with the
+        # table's own directories: with a table at 'data' (or 'd') every listed
+        # 'data/<file>' was mangled and compared unequal to the reachable set,
+        # so GC deleted every live data file; with 'm'/'metadata' every
+        # manifest path was mangled and GC could never run.
+        table_path = self.table_path.rstrip("/")
+        if table_path.startswith("/") and path.startswith(table_path + "/"):
+            path = path[len(table_path) + 1:]
         return path.lstrip("/")
